@@ -4,6 +4,7 @@ import PqV.Impl.ThriftSer
 import PqV.Gen.Idl
 import PqV.Gen.Specs
 import PqV.Gen.CallSites
+import PqV.Lemmas.ThriftSerRefine
 /-!
 # C10 — metadata serialisation is lossless, IDL-conformant and safe for any size
 Table obligations over the REGENERATED tables (IDL, specs/children, call sites).
@@ -99,5 +100,27 @@ theorem spec_roundtrip_any_structure (fs : List (Nat × PqV.Spec.TVal)) (hok : P
 
 example : PqV.Spec.fieldsOk 0 [(1, .i32 (-5)), (3, .list 1 [.bool true, .bool false]), (20, .struct [(2, .binary [7, 8])])] = true := by
   decide
+
+/-- **the serialiser model refines the specification encoder** (all structures, unbounded nesting):
+    whenever the Python-level structure handed to `ThriftObject.to_bytes` has an IDL-level reading
+    (`specThrift`: every populated field in the regenerated loop range `Specs.loopLo..loopHi`, no
+    empty list, list items of the first item's kind, integers within int64, lengths below 2^64),
+    the model of `to_bytes` (Impl.ThriftSer, tied to cencoding.pyx by the correspondence stream)
+    emits bytes the specification decoder reads back as exactly that structure, leaving the bytes that
+    follow untouched.  The excluded inputs are exactly the known findings (field id ≥ 14 dropped,
+    empty-list element type, ints outside int64 wrap) — see `field14_dropped`, `narrow_fields`. -/
+theorem serialiser_lossless (m : PqV.Impl.ThriftSer.Marker) (es : List (Nat × PqV.Impl.ThriftSer.PyT))
+    (fs : List (Nat × PqV.Spec.TVal)) (tail : List Nat)
+    (h : PqV.Impl.ThriftSer.specThrift ((PqV.Impl.ThriftSer.PyT.dict m es).weight + 2) m es = some fs) :
+    ∃ out, PqV.Impl.ThriftSer.toBytes (.dict m es) = some out ∧
+      PqV.Spec.decStruct (out ++ tail) = some (.struct fs, tail) :=
+  PqV.Impl.ThriftSer.toBytes_lossless m es fs tail h
+
+/-- the premise is met by a nested structure with a list of structs, a string and a marked i32 -/
+example : (PqV.Impl.ThriftSer.specThrift
+    ((PqV.Impl.ThriftSer.PyT.dict (.ids [1]) [(1, .int 7), (2, .list [.dict .none [(1, .str [104, 105])], .dict .none [(3, .int (-2))]]),
+        (4, .bytes [1, 2, 3])]).weight + 2)
+    (.ids [1]) [(1, .int 7), (2, .list [.dict .none [(1, .str [104, 105])], .dict .none [(3, .int (-2))]]), (4, .bytes [1, 2, 3])]).isSome = true := by
+  decide +kernel
 
 end PqV.Props.C10
